@@ -631,6 +631,25 @@ TRUTHY_REVIEWED = {
 }
 
 
+TRUTHY_ATTR_REVIEWED = {
+    # (function, attribute): the truthiness tests of numeric attributes that exist in the reference tree, each read and judged
+    ('aa.VariantPeptideIdentifier:BaseVariantPeptideIdentifier.__str__', 'index'): 'label indices start at 1',
+    ('aa.VariantPeptideIdentifier:CircRNAVariantPeptideIdentifier.__str__', 'index'): 'label indices start at 1',
+    ('aa.VariantPeptideIdentifier:FusionVariantPeptideIdentifier.__str__', 'index'): 'label indices start at 1',
+    ('aa.VariantPeptideIdentifier:NovelORFPeptideIdentifier.__str__', 'index'): 'label indices start at 1',
+    ('seqvar.SplicingJunction:SpliceJunctionTranscriptAlignment.get_interjacent_exons', 'upstream_end_index'):
+        'index -1 stands for "no matched exon"; 0 and -1 both end in the error / empty answer of this guard only when both are falsy (reviewed with C16.i)',
+    ('seqvar.SplicingJunction:SpliceJunctionTranscriptAlignment.get_interjacent_exons', 'downstream_start_index'):
+        'see upstream_end_index',
+    ('svgraph.PVGNode:PVGNode.__getitem__', 'left_cleavage_pattern_end'): 'an END of 0 means an empty look-behind part: same as no pattern',
+    ('svgraph.PVGNode:PVGNode.__getitem__', 'right_cleavage_pattern_start'):
+        'belief contradiction left as found (get_cleavage_gain_variants tests `is not None`): a pattern starting at residue 0 is dropped by a slice; not shown to change an output',
+    ('svgraph.PVGNode:PVGNode.get_cleavage_gain_from_downstream', 'right_cleavage_pattern_start'):
+        'belief contradiction left as found: with a pattern start of 0 the else-branch (variants ending at the node end) is taken; not shown to change an output',
+    ('svgraph.PVGNode:PVGNode.get_cleavage_gain_from_downstream', 'left_cleavage_pattern_end'): 'an END of 0 means an empty look-behind part: same as no pattern',
+}
+
+
 def truthy_numeric(chk, repo, rid, prefixes, floor=0):
     """A parameter annotated int / float (0 is a legal value: reading frame 0, index 0, offset 0) must be tested with `is None` /
     `is not None`, never by truthiness: `if frame:` silently treats frame 0 as "not given".  Every truthiness test of such a
@@ -668,6 +687,45 @@ def truthy_numeric(chk, repo, rid, prefixes, floor=0):
                 chk.ob(rid, f"{f.qual}: `{p.arg}` ({ann}) is not tested by truthiness", repo.loc(f, u), why is not None or (rebound and False),
                        f"the numeric parameter `{p.arg}` of {f.name} is tested by truthiness: the legal value 0 (frame 0, index 0) is treated like a missing argument",
                        key=f"{f.qual}::truthy::{p.arg}", fn=f.qual)
+    # numeric ATTRIBUTES: a constructor parameter annotated int / float that is stored as `self.A = A`; every truthiness test of `<x>.A`
+    # in the given modules is an instance (the ones of the reference tree are reviewed in TRUTHY_ATTR_REVIEWED)
+    num = set()
+    for q, g in repo.functions.items():
+        if not q.endswith('.__init__'):
+            continue
+        a = g.node.args
+        anns = {p.arg: (unparse(p.annotation) if p.annotation is not None else '') for p in a.args + a.kwonlyargs}
+        for st in ast.walk(g.node):
+            if isinstance(st, ast.Assign) and len(st.targets) == 1 and isinstance(st.targets[0], ast.Attribute) and unparse(st.targets[0].value) == 'self' \
+                    and isinstance(st.value, ast.Name):
+                ann = anns.get(st.value.id, '')
+                if ('int' in ann or 'float' in ann) and not any(x in ann for x in ('List', 'Dict', 'Tuple', 'Set', 'Iterable')):
+                    num.add(st.targets[0].attr)
+
+    def attr_uses(fn):
+        out = []
+
+        def vt(e):
+            if isinstance(e, ast.Attribute) and e.attr in num:
+                out.append(e)
+            elif isinstance(e, ast.BoolOp):
+                for v in e.values:
+                    vt(v)
+            elif isinstance(e, ast.UnaryOp) and isinstance(e.op, ast.Not):
+                vt(e.operand)
+        for n in ast.walk(fn):
+            if isinstance(n, (ast.If, ast.While, ast.IfExp)):
+                vt(n.test)
+            if isinstance(n, ast.comprehension):
+                for c in n.ifs:
+                    vt(c)
+        return out
+    for f in repo.funcs_in(*prefixes):
+        for u in attr_uses(f.node):
+            why = TRUTHY_ATTR_REVIEWED.get((f.qual, u.attr))
+            chk.ob(rid, f"{f.qual}: `{unparse(u)}` (numeric attribute) is not tested by truthiness", repo.loc(f, u), why is not None,
+                   f"the numeric attribute `{unparse(u)}` is tested by truthiness in {f.name}: the legal value 0 (index 0, first residue) is treated like a missing value",
+                   key=f"{f.qual}::truthy-attr::{u.attr}", fn=f.qual)
 
 
 # ----------------------------------------------------------------------------- copy() gives the copy its own mutable containers
@@ -787,6 +845,33 @@ def w2f_scan_complete(chk, repo, rid):
         chk.ob(rid, 'a W>F candidate is created for every found tryptophan, the last residue included', repo.loc(f, st), not bad,
                '; '.join(bad) + ': a tryptophan at the last position of the peptide never gets its W>F form (peptides ending in W: C-terminal peptide of an ORF, '
                'or a peptide cut in front of a Sec codon)', key=f.qual + '::w2f-scan', fn=f.qual)
+
+
+    # the other end of the scan: the first search starts at index 0.  For every `<seq>.find('W', X)` inside a loop, X evaluated with the
+    # values the names have when the loop is entered (their last assignment before the loop) is 0; no such call (enumerate / for
+    # scan) = nothing to state
+    finds = [c for c in ast.walk(f.node) if isinstance(c, ast.Call) and call_name(c) == 'find' and isinstance(c.func, ast.Attribute) and unparse(c.func.value) == S
+             and c.args and isinstance(c.args[0], ast.Constant) and c.args[0].value == 'W']
+    for c in finds:
+        x = c.args[1] if len(c.args) > 1 else kwarg(c, 'start')
+        lp = next((a_ for a_ in repo.ancestors(c) if isinstance(a_, (ast.For, ast.While))), None)
+        if x is None:
+            first = Aff(0)
+        else:
+            env = {}
+            if lp is not None:
+                for nm in {n.id for n in ast.walk(x) if isinstance(n, ast.Name)}:
+                    d_ = sem.nearest_def(f.node, lp, nm, ch)
+                    a_ = simple_aff(d_) if d_ is not None else None
+                    if a_ is not None:
+                        env[nm] = a_
+            first = simple_aff(x, env)
+        if first is None or first.t:
+            chk.undecided(rid, 'W>F scan start', repo.loc(f, c), f"the start `{unparse(x) if x is not None else 0}` of the first search could not be evaluated", key=f.qual + '::w2f-scan-start', fn=f.qual)
+            continue
+        chk.ob(rid, 'the first search for a tryptophan starts at index 0', repo.loc(f, c), first.c == 0,
+               f"the first `{unparse(c)}` starts at index {first.c}: a tryptophan at the first position of the peptide never gets its W>F form "
+               '(peptides starting with W: after a cleavage site, Met-removed N-terminus)', key=f.qual + '::w2f-scan-start', fn=f.qual)
 
 
 # ----------------------------------------------------------------------------- a writer / reader helper leaves its inputs as they are
@@ -1224,7 +1309,9 @@ def converted_per_line(chk, repo, rid, qual, conv='convert_to_variant_record', f
             nodes = [n for n in pth.nodes() if n.kind == 'stmt']
             files = [n for n in nodes if isinstance(n.ast, ast.Expr) and isinstance(n.ast.value, ast.Call) and call_name(n.ast.value) in ('append', 'add', 'extend')
                      and n.ast.value.args and not isinstance(n.ast.value.args[0], (ast.Constant, ast.List, ast.Dict, ast.Set, ast.Tuple))]
-            if files and not any(id(n.ast) in conv_stmts for n in nodes):
+            # the conversion must have COMPLETED in this iteration: leaving its statement through an exception edge does not count
+            done_conv = any(cfg.nodes[nid_].kind == 'stmt' and id(cfg.nodes[nid_].ast) in conv_stmts and lab_ != 'exc' for (nid_, lab_, _y) in pth.steps)
+            if files and not done_conv:
                 bad = bad or pth
         chk.paths += n_p
         chk.ob(rid, f"{f.name}: an iteration of `for {tg} in ...` that files a record has converted {tg}", repo.loc(f, lp), n_p > 0 and bad is None,
